@@ -28,13 +28,15 @@ def _any_sym(*xs):
     return False
 
 
-def fake_scipy_norm(uf=True):
+def fake_scipy_norm(uf=True, congruence=False):
     """``scipy`` stand-in for stepd: ``scipy.stats.norm.cdf(x, 0, 1)``.
 
     Contract: Phi is a function of x with range [0, 1], monotone (instantiated
     pairwise on the arguments that occur on the path).  On concrete arguments
     the real scipy is called."""
     import scipy.stats as real
+
+    seen = []
 
     def cdf(x, loc=0, scale=1):
         c = cur()
@@ -49,6 +51,17 @@ def fake_scipy_norm(uf=True):
             return real.norm.cdf(x, loc, scale)
         # uf=False: an arbitrary value in [0,1] per call (weaker contract, keeps
         # the path condition in pure nonlinear real arithmetic)
+        if congruence:
+            # function model without an uninterpreted symbol (keeps queries in pure nonlinear real arithmetic):
+            # an argument proved equal to an earlier one gets the earlier result, anything else a fresh value
+            xz = x if isinstance(x, Sym) else Sym(core.to_z3_num(x))
+            for (x0, r0) in seen:
+                if x0.z.eq(xz.z) or not c.feasible(x0 != xz):
+                    return r0
+            r = c.real("Phi")
+            seen.append((xz, r))
+            c.assume_unchecked(land(r >= 0, r <= 1))
+            return r
         r = c.real("Phi")
         if uf:
             c.assume_unchecked(r == c.uf1("PhiF", x))
